@@ -1211,10 +1211,11 @@ def generate_j_part_cb_from_jump_operators(
     """
     dim = jump_operators[0].shape[0]
     identity = np.eye(dim)
-    terms = [
-        mutil.kron(opertor, identity) + mutil.kron(identity, opertor.conj())
-        for opertor in jump_operators
-    ]
+    # anti-commutator part of the GKSL form: rho -> -1/2 {c^dagger c, rho} for each jump operator c
+    terms = []
+    for opertor in jump_operators:
+        cdc = opertor.conj().T @ opertor
+        terms.append(mutil.kron(cdc, identity) + mutil.kron(identity, cdc.conj()))
     j_part_cb = -1 / 2 * reduce(add, terms)
     return j_part_cb
 
